@@ -92,9 +92,11 @@ def run(ctx):
     saves = [(b, v) for (b, op, item, v) in common.storage_sites(P, h, writes=True) if item == PAIRS]
     lps = [l for l in common.loops(P, h) if l["is_loop"]]
     walk = None
-    for l in lps:
-        if saves and all(body.edge_dominates(l["some_edge"], b) for b, _ in saves):
-            walk = l
+    cands = [l for l in lps if saves and all(body.edge_dominates(l["some_edge"], b) for b, _ in saves)]
+    # the walk is the outermost such loop (an inner `for i in 0..2` over the two positions is handled by R3)
+    outer = [l for l in cands if not any(o is not l and body.edge_dominates(o["some_edge"], l["next_bb"]) for o in cands)]
+    if len(outer) == 1:
+        walk = outer[0]
     if walk is None or not saves:
         r1.fail("C17.R1:no-walk", h.path, h.span, "the registry records are not rewritten inside a loop over the registered pairs: unrecognised-idiom")
         return
@@ -196,9 +198,35 @@ def run(ctx):
             if fn.path == h.path and adt.endswith("pair::ExecuteMsg") and var == "UpdateNativeTokenDecimals"]
     execs = [(fn, b, sp, tgt, pay, funds, v) for (fn, b, sp, tgt, pay, funds, v) in __import__("analysis.rules.c07", fromlist=["x"]).exec_sites(ctx) if fn.path == h.path]
     covered = set()
+
+    def both_positions(l):
+        """True when the loop's iterator is exactly 0..2 / 0..=1 with no adaptor."""
+        ads_, kind_, src_ = common.iter_chain(l["iter"])
+        if ads_:
+            return False
+        if src_[0] == "agg" and str(src_[2]).endswith("ops::Range"):
+            fs = dict(src_[3])
+            return fs.get("start") == ("const", "int", 0) and fs.get("end") == ("const", "int", 2)
+        if src_[0] == "call" and isinstance(src_[3], str) and generic_path(src_[3]).endswith("RangeInclusive::new"):
+            return src_[4][0] == ("const", "int", 0) and src_[4][1] == ("const", "int", 1)
+        return False
+
+    def sym_index(v, l):
+        """v reads item.asset_infos[i] with i the element of loop l."""
+        for x in common.walk(v):
+            if x[0] == "proj" and x[2][0] == "ix":
+                if "|".join(sorted(ctx.roots(x[1]))) == "%s.asset_infos" % item and set(ctx.roots(x[2][1])) == {l["item_root"]}:
+                    return True
+        return False
+
     for sb, sv in saves:
         where = common.span_of_block_term(h, sb)
-        conds = [c for c in common.control_conditions(P, h, sb) if c["sw"] in loop_blocks and c["sw"] != walk["switch"]]
+        inner = [l for l in lps if l is not walk and l["next_bb"] in loop_blocks and body.edge_dominates(l["some_edge"], sb)]
+        sym = inner[0] if len(inner) == 1 and both_positions(inner[0]) else None
+        if inner and sym is None:
+            r3.fail("C17.R3:inner-loop", h.path, where, "the registry update sits in an inner loop that is not exactly `0..2` over the two positions: unrecognised-idiom")
+            continue
+        conds = [c for c in common.control_conditions(P, h, sb) if c["sw"] in loop_blocks and c["sw"] != walk["switch"] and (sym is None or c["sw"] != sym["switch"])]
         idx = None
         extra = []
         have_native = have_eq = False
@@ -212,6 +240,12 @@ def run(ctx):
                     if idx is not None and idx != int(m.group(1)):
                         extra.append("mixed indices")
                     idx = int(m.group(1))
+                    have_native = True
+                    continue
+                if sym is not None and sym_index(cd[2][0], sym):
+                    if idx not in (None, "i"):
+                        extra.append("mixed indices")
+                    idx = "i"
                     have_native = True
                     continue
             if cd[0] == "cmp" and cd[1] in ("eq", "ne") and len(cd[2]) == 2 and c["allowed"] == [cd[1] == "eq"]:
@@ -231,6 +265,13 @@ def run(ctx):
                         idx = int(m.group(1))
                         have_eq = True
                         continue
+                    if sym is not None and ((qc and sym_index(qc[0][4][0], sym)) or
+                                            (not qc and other[0] == "proj" and other[2] == ("f", "denom") and sym_index(other, sym))):
+                        if idx not in (None, "i"):
+                            extra.append("mixed indices")
+                        idx = "i"
+                        have_eq = True
+                        continue
             extra.append("; ".join(sorted(lemmas.cond_strings(ctx, [c]))))
         if extra:
             r3.fail("C17.R3:extra-condition:%s" % ("|".join(extra))[:150], h.path, where,
@@ -245,18 +286,22 @@ def run(ctx):
         mload = re.search(r"mload\(I:halo_factory::state::PAIRS\)\[([^\]]*)\]", recs)
         key = "|".join(sorted(ctx.roots(sv[4][2])))
         if not mload or mload.group(1) != key:
-            r3.fail("C17.R3:record-key:%d" % idx, h.path, where, "the record is saved under %s but was read under %s" % (key[:80], mload.group(1)[:80] if mload else "?"))
+            r3.fail("C17.R3:record-key:%s" % idx, h.path, where, "the record is saved under %s but was read under %s" % (key[:80], mload.group(1)[:80] if mload else "?"))
             continue
         stored = "mload(%s)[%s]" % (PAIRS, key)
-        want_arr = "A:array[%s]" % ";".join(DEC if k == idx else "%s.asset_decimals[%d]" % (stored, k) for k in (0, 1))
+        if idx == "i":
+            # `decimals[i] = new` on the stored array, i ranging over both positions
+            want_arr = "X:upd(%s.asset_decimals;[@%s];%s)" % (stored, sym["item_root"], DEC)
+        else:
+            want_arr = "A:array[%s]" % ";".join(DEC if k == idx else "%s.asset_decimals[%d]" % (stored, k) for k in (0, 1))
         got_arr = "|".join(sorted(ctx.roots(rec, (("f", "asset_decimals"),))))
         if got_arr != want_arr:
-            r3.fail("C17.R3:record-decimals:%d" % idx, h.path, where, "saved asset_decimals ⊢ %s, expected %s" % (got_arr[:200], want_arr[:200]))
+            r3.fail("C17.R3:record-decimals:%s" % idx, h.path, where, "saved asset_decimals ⊢ %s, expected %s" % (got_arr[:200], want_arr[:200]))
             continue
         for fld in ("asset_infos", "contract_addr", "liquidity_token", "requirements", "commission_rate"):
             g = "|".join(sorted(ctx.roots(rec, (("f", fld),))))
             if g != "%s.%s" % (stored, fld):
-                r3.fail("C17.R3:record-field:%s:%d" % (fld, idx), h.path, where, "saved %s ⊢ %s, expected the stored record's %s" % (fld, g[:120], fld))
+                r3.fail("C17.R3:record-field:%s:%s" % (fld, idx), h.path, where, "saved %s ⊢ %s, expected the stored record's %s" % (fld, g[:120], fld))
         # the matching message: in the same region, to that record's contract, same array and denom
         mm = [(fn, b, sp, tgt, pay, funds, v) for (fn, b, sp, tgt, pay, funds, v) in execs
               if any(body.block_dominates(sb, b) and body.edge_dominates(e_, b) for e_ in [(c["sw"], None) for c in []] or [None]) or True]
@@ -268,18 +313,19 @@ def run(ctx):
             if s1 == s2:
                 mine.append((b, sp, tgt, pay))
         if len(mine) != 1:
-            r3.fail("C17.R3:message-count:%d" % idx, h.path, where, "%d update messages are built in the region of position %d, expected exactly one" % (len(mine), idx))
+            r3.fail("C17.R3:message-count:%s" % idx, h.path, where, "%d update messages are built in the region of position %s, expected exactly one" % (len(mine), idx))
             continue
         b, sp, tgt, pay = mine[0]
         want_pay = "bin(A:haloswap::pair::ExecuteMsg::UpdateNativeTokenDecimals{denom=%s,asset_decimals=%s})" % (DENOM, want_arr)
         if tgt != {"human(%s.contract_addr)" % stored}:
-            r3.fail("C17.R3:message-target:%d" % idx, h.path, sp, "update message goes to %s, expected the updated record's contract" % sorted(tgt))
+            r3.fail("C17.R3:message-target:%s" % idx, h.path, sp, "update message goes to %s, expected the updated record's contract" % sorted(tgt))
         elif "|".join(sorted(pay)) != want_pay:
-            r3.fail("C17.R3:message-payload:%d" % idx, h.path, sp, "update message carries %s, expected %s" % ("|".join(sorted(pay))[:250], want_pay[:250]))
+            r3.fail("C17.R3:message-payload:%s" % idx, h.path, sp, "update message carries %s, expected %s" % ("|".join(sorted(pay))[:250], want_pay[:250]))
         else:
-            covered.add(idx)
-            r3.site("position %d: record and message carry %s at %s" % (idx, want_arr.replace(stored, "stored")[:90], where))
-            r3.site("position %d: guarded exactly by is_native(asset_infos[%d]) ∧ denom(asset_infos[%d]) == denom" % (idx, idx, idx))
+            for k in ((0, 1) if idx == "i" else (idx,)):
+                covered.add(k)
+                r3.site("position %s: record and message carry %s at %s" % (k, want_arr.replace(stored, "stored")[:90], where))
+                r3.site("position %s: guarded exactly by is_native(asset_infos[%s]) ∧ denom(asset_infos[%s]) == denom%s" % (k, k, k, " (index loop 0..2)" if idx == "i" else ""))
     if covered != {0, 1} and r3.status == "pass":
         r3.fail("C17.R3:coverage", h.path, h.span, "positions handled: %s, expected both 0 and 1" % sorted(covered))
     # the key used inside the walk is the key of the iterated pair itself
